@@ -82,7 +82,7 @@ def analyse(ctx, case, run, S):
     got = 'ok' if dec == 'ok' else ('panic' if dec == 'panic' else 'err')
     name = 'tag=%s elems=%d trailing=%d noncanonical=%s%s%s' % (tag, e, t, nc, (' undecodable=%s' % cfg['undecodable']) if cfg.get('undecodable') else '',
                                                                     (' special=%s' % cfg['special_scalars']) if cfg.get('special_scalars') else '')
-    det = {'expect_decode': 'ok' if want else 'err'}
+    det = {'expect_decode': 'ok' if want else 'err', 'replay_priority': 10 * len([1 for it in (cfg.get('special_scalars') or []) if it[1] != 'zero']) + len(cfg.get('undecodable') or [])}
     cls = 'accepts-outside-spec' if got == 'ok' and not want else ('refuses-inside-spec' if want and got != 'ok' else 'x')
     ctx.expect(got != 'panic', 'C15:panic', '%s: from_bytes PANICKED' % name, cfg, 'any_panic')
     ctx.expect((got == 'ok') == want, 'C15:%s' % cls, '%s: from_bytes returned %s, the acceptance set says %s' % (name, dec, 'accept' if want else 'refuse'), cfg, 'codec_mismatch', det)
